@@ -11,6 +11,10 @@ case $prop in
   C18) dest=""; ;;
   *) dest=pipe/zz_demo_test.go; moddir=pipe; pkg=. ;;
 esac
+# the demo says itself which package it belongs to
+if [ -n "$dest" ] && [ "$prop" != C16 ]; then
+  if grep -qE '^package fork(_test)?$' $d/demo_test.go; then dest=pipe/fork/zz_demo_test.go; pkg=./fork; else dest=pipe/zz_demo_test.go; pkg=.; fi
+fi
 names=$(grep -ohE '^func (Test[A-Za-z0-9_]+)' $d/demo_test.go | awk '{print $2}' | paste -sd'|')
 cd $wt && git checkout -q -- . && git clean -fdq -e out
 run_demo() {
